@@ -202,6 +202,7 @@ func runHist(op map[string]any) (any, error) {
 		return nil, err
 	}
 	byID := map[string]*bkl.Document{}
+	parentSets := map[string][]*bkl.Document{}
 	res := []any{}
 	dead := false
 	for _, s := range steps {
@@ -217,14 +218,22 @@ func runHist(op map[string]any) (any, error) {
 				return nil, err
 			}
 			doc := bkl.NewDocumentWithData(id, data)
-			if ps, ok := m["parents"].([]any); ok {
-				for _, pid := range ps {
-					pd, found := byID[pid.(string)]
-					if !found {
-						return nil, fmt.Errorf("unknown parent %v", pid)
+			if ps, ok := m["parents"].([]any); ok && len(ps) > 0 {
+				// Like file.go:setParents, every child document of a layer is handed the SAME slice of
+				// parent documents (built by append, so it may have spare capacity).
+				key := fmt.Sprint(ps)
+				pds, seen := parentSets[key]
+				if !seen {
+					for _, pid := range ps {
+						pd, found := byID[pid.(string)]
+						if !found {
+							return nil, fmt.Errorf("unknown parent %v", pid)
+						}
+						pds = append(pds, pd)
 					}
-					doc.AddParents(pd)
+					parentSets[key] = pds
 				}
+				doc.AddParents(pds...)
 			}
 			byID[id] = doc
 			err = p.MergeDocument(doc)
